@@ -893,7 +893,7 @@ func genCompileCases(tier string, emit func(op string, fields ...string)) {
 
 // compileCorpus: hand-written edge cases and minimised past failures, run first.
 var compileCorpus = []string{
-	"T | where Not(a) + 1 > 0", "T | where Case(a) > 1", "T | where x == AND(a)", "T | where is(a)", "T | project y = In(a, b)", "T | where not(a) + 1 > 0",
+	"T | where $foo(a) > 1", "T | extend x = $f(1) + $left(2)", "T | where Not(a) + 1 > 0", "T | where Case(a) > 1", "T | where x == AND(a)", "T | where is(a)", "T | project y = In(a, b)", "T | where not(a) + 1 > 0",
 	"T | where null(1) == 1", "T | where true(1)", "T | where false(a.b) > 0", "T | where current_timestamp(1) > 0",
 	"T | where -((-a)) > 0", "T | where -(((-a))) > 0", "let n = ((-1)); T | where a > -n", "T | where ((-a))[1] == 2", "T | where +((+a))",
 	"T | extend k = -((-a)) | where k > 0 | take 3", "T | where ((not(a))) in (1)", "T | where -((not(a)))", "T | where ((iff(a, b, c))) + 1",
